@@ -95,9 +95,9 @@ type vAbs struct {
 }
 
 type vLss struct {
-	K     uint64 `json:"k"`
-	Abs   *vAbs  `json:"abs,omitempty"`
-	Covers []int `json:"covers"` // every n with state == reference replay of log[1..n]
+	K      uint64 `json:"k"`
+	Abs    *vAbs  `json:"abs,omitempty"`
+	Covers []int  `json:"covers"` // every n with state == reference replay of log[1..n]
 	Err    string `json:"err,omitempty"`
 }
 
@@ -125,10 +125,10 @@ type vPost struct {
 }
 
 type vPend struct {
-	First uint64 `json:"first"`
-	Last  uint64 `json:"last"`
-	Ridx  uint64 `json:"ridx"`
-	Covers []int `json:"covers"`
+	First  uint64 `json:"first"`
+	Last   uint64 `json:"last"`
+	Ridx   uint64 `json:"ridx"`
+	Covers []int  `json:"covers"`
 	Abs    *vAbs  `json:"abs,omitempty"`
 }
 
@@ -281,13 +281,22 @@ type vRefState struct {
 	srv   *ircserver.IRCServer
 }
 
+type vCanonEntry struct {
+	canon  string
+	abs    *vAbs
+	li     uint64
+	covers []int
+	err    error
+}
+
 type vRef struct {
-	sched *vSchedule
-	mod   map[uint64]bool
-	cache map[uint64]*vRefState
-	limit int // entries above this index could not be applied by the reference (PANIC)
-	outs  map[uint64][]outputstream.Message
-	dir   string
+	canons map[string]*vCanonEntry
+	sched  *vSchedule
+	mod    map[uint64]bool
+	cache  map[uint64]*vRefState
+	limit  int // entries above this index could not be applied by the reference (PANIC)
+	outs   map[uint64][]outputstream.Message
+	dir    string
 }
 
 var vRefCreation = time.Unix(1500000000, 0)
@@ -347,7 +356,7 @@ func (r *vRef) at(n uint64) *vRefState {
 }
 
 func vNewRef(s *vSchedule, scratch string) *vRef {
-	r := &vRef{sched: s, mod: map[uint64]bool{}, cache: map[uint64]*vRefState{}, limit: math.MaxInt32,
+	r := &vRef{sched: s, canons: map[string]*vCanonEntry{}, mod: map[uint64]bool{}, cache: map[uint64]*vRefState{}, limit: math.MaxInt32,
 		outs: map[uint64][]outputstream.Message{}, dir: scratch}
 	for _, m := range s.Mod {
 		r.mod[m] = true
@@ -372,6 +381,27 @@ func vNewRef(s *vSchedule, scratch string) *vRef {
 	}
 	stream.Close()
 	return r
+}
+
+// describe decodes a serialized IRCServer state once (states are immutable byte strings)
+func (r *vRef) describe(state []byte) *vCanonEntry {
+	if e, ok := r.canons[string(state)]; ok {
+		return e
+	}
+	e := &vCanonEntry{covers: []int{}}
+	canon, snap, err := vCanon(state)
+	if err != nil {
+		e.err = err
+	} else {
+		var raw pb.Snapshot
+		proto.Unmarshal(state, &raw)
+		e.li = raw.LastIncludedIndex
+		e.canon = canon
+		e.abs = vAbsOf(snap)
+		e.covers = r.covers(canon)
+	}
+	r.canons[string(state)] = e
+	return e
 }
 
 func (r *vRef) covers(canon string) []int {
@@ -545,6 +575,7 @@ type vNode struct {
 	stored      uint64
 	ref         *vRef
 	byIdx       map[uint64]vEntry
+	snapCache   map[string]*vSnapContent
 }
 
 func (n *vNode) open() error {
@@ -795,11 +826,10 @@ func (n *vNode) observe() (*vPost, *vChk) {
 	sort.Slice(lk, func(i, j int) bool { return lk[i] < lk[j] })
 	for _, k := range lk {
 		e := vLss{K: k, Covers: []int{}}
-		if canon, snap, err := vCanon(n.fsm.lastSnapshotState[k]); err != nil {
-			e.Err = err.Error()
+		if d := n.ref.describe(n.fsm.lastSnapshotState[k]); d.err != nil {
+			e.Err = d.err.Error()
 		} else {
-			e.Abs = vAbsOf(snap)
-			e.Covers = n.ref.covers(canon)
+			e.Abs, e.Covers = d.abs, d.covers
 		}
 		p.Lss = append(p.Lss, e)
 	}
@@ -807,9 +837,8 @@ func (n *vNode) observe() (*vPost, *vChk) {
 	// pending
 	if rs, ok := n.pending.(*robustSnapshot); ok && rs != nil {
 		pe := &vPend{First: rs.firstIndex, Last: rs.lastIndex, Ridx: n.pendingRidx, Covers: []int{}}
-		if canon, snap, err := vCanon(rs.state); err == nil {
-			pe.Abs = vAbsOf(snap)
-			pe.Covers = n.ref.covers(canon)
+		if d := n.ref.describe(rs.state); d.err == nil {
+			pe.Abs, pe.Covers = d.abs, d.covers
 		}
 		p.Pending = pe
 	}
@@ -841,30 +870,33 @@ func (n *vNode) observe() (*vPost, *vChk) {
 		for i := len(metas) - 1; i >= 0; i-- {
 			m := metas[i]
 			sn := vSnap{ID: m.ID, Ridx: m.Index, Covers: []int{}, Retained: []uint64{}, RetainedOK: true}
-			_, rc, err := n.fss.Open(m.ID)
-			if err != nil {
-				sn.Err = err.Error()
-			} else {
-				content, err := vParseSnapshot(rc)
-				rc.Close()
+			content, ok := n.snapCache[m.ID]
+			if !ok {
+				_, rc, err := n.fss.Open(m.ID)
 				if err != nil {
 					sn.Err = err.Error()
 				} else {
-					if canon, snap, err := vCanon(content.state); err != nil {
+					content, err = vParseSnapshot(rc)
+					rc.Close()
+					if err != nil {
 						sn.Err = err.Error()
+						content = nil
 					} else {
-						var raw pb.Snapshot
-						proto.Unmarshal(content.state, &raw)
-						sn.Li = raw.LastIncludedIndex
-						sn.Abs = vAbsOf(snap)
-						sn.Covers = n.ref.covers(canon)
+						n.snapCache[m.ID] = content
 					}
-					for _, l := range content.retained {
-						sn.Retained = append(sn.Retained, l.Index)
-						var b raft.Log
-						if err := n.logstore.GetLog(l.Index, &b); err != nil || b.Type != l.Type || !bytes.Equal(b.Data, l.Data) {
-							sn.RetainedOK = false
-						}
+				}
+			}
+			if content != nil {
+				if d := n.ref.describe(content.state); d.err != nil {
+					sn.Err = d.err.Error()
+				} else {
+					sn.Li, sn.Abs, sn.Covers = d.li, d.abs, d.covers
+				}
+				for _, l := range content.retained {
+					sn.Retained = append(sn.Retained, l.Index)
+					var b raft.Log
+					if err := n.logstore.GetLog(l.Index, &b); err != nil || b.Type != l.Type || !bytes.Equal(b.Data, l.Data) {
+						sn.RetainedOK = false
 					}
 				}
 			}
@@ -972,7 +1004,7 @@ func vRunSchedule(s *vSchedule, base string, seq int, emit func(vEvent)) {
 	}
 	refdir := filepath.Join(base, fmt.Sprintf("ref-%d", seq))
 	os.MkdirAll(refdir, 0755)
-	n := &vNode{s: s, dir: dir, byIdx: map[uint64]vEntry{}}
+	n := &vNode{s: s, dir: dir, byIdx: map[uint64]vEntry{}, snapCache: map[string]*vSnapContent{}}
 	for _, e := range s.Log {
 		n.byIdx[e.Idx] = e
 	}
